@@ -15,7 +15,8 @@ RULE = (
     "than the table holds, and their non-overflowing neighbours: max_prefixes 1..4 with 1..4 distinct prefixes per "
     "statement; max_datatypes 1..4 with generalized typed literals in s/p/o/g; max_names 8..28 with nested quoted triples "
     "carrying up to 27 IRIs; all three physical types, generic and (prefix case) rdflib encoders. Oracle: serialisation "
-    "raises, or the reference decoder R decodes the bytes to exactly the input; when every table has at least as many "
+    "raises, or the reference decoder R decodes the bytes to exactly the input; when it raises, the sequence is driven again "
+    "statement by statement with the caller skipping refused statements - the file must then decode to exactly the accepted ones; when every table has at least as many "
     "slots as the largest statement has IRI / datatype occurrences the call must not raise (no blanket refusal). "
     "non-trivial = some statement's distinct-entry demand (pyjelly's documented split: last '#', else last '/') exceeds "
     "an enabled table by >= 1; distinct by case hash."
@@ -130,7 +131,7 @@ def body(case, acc):
                              f"but serialisation raised {exc!r}", case)
         if acc is not None:
             acc.count("refused")
-        return None
+        return continue_after_refusal(case, acc)
     res = jellyref.decode(data, True, mode="strict")
     which = "+".join(k for k, o in zip(("name", "prefix", "datatype"), over) if o) or "fits"
     if res.error is not None:
@@ -151,6 +152,50 @@ def body(case, acc):
                          f"{want[i] if i is not None else None!r}", case)
     if acc is not None and any(over):
         acc.count("overflow_but_correct")
+    return None
+
+
+def continue_after_refusal(case, acc):
+    """The caller catches the refusal, skips that statement and keeps writing to the same stream: whatever ends up in the
+    file must decode to exactly the statements whose call returned (or every later call is refused as well)."""
+    import io as _io
+
+    from pyjelly.serialize.ioutils import write_delimited
+
+    if case["phys"] == "GRAPHS":
+        return None
+    integ = case["integration"]
+    stream = pyj.make_stream(case, integ)
+    out = _io.BytesIO()
+    stream.enroll()
+    accepted = []
+    refused = 0
+    for s_, objs in zip(case["statements"], pyj.conv_stmts(case["statements"], integ)):
+        try:
+            f = stream.triple(objs) if case["phys"] == "TRIPLES" else stream.quad(objs)
+        except Exception:  # noqa: BLE001
+            refused += 1
+            continue
+        if f is not None:
+            write_delimited(f, out)
+        accepted.append(s_)
+    f = stream.flow.to_stream_frame()
+    if f is not None:
+        write_delimited(f, out)
+    if acc is not None and refused:
+        acc.count("continued_after_refusal")
+    if not out.getvalue():
+        return None
+    res = jellyref.decode(out.getvalue(), True, mode="prefix")
+    if res.error is not None and not (res.error.kind == "no-options-row" and not accepted):
+        return Violation("C18:corrupt-after-refusal", f"tables {case['preset']}: after {refused} refused statement(s) the file is "
+                         f"not decodable: {res.error}", case)
+    got = [[list(T.norm(t)) for t in st_] for st_ in res.statements]
+    conv = (lambda t: T.norm(t)) if integ == "generic" else (lambda t: T.norm(T.rdflib_canon(t)))
+    want = [[list(conv(t)) for t in st_] for st_ in accepted]
+    if got != want:
+        return Violation("C18:corrupt-after-refusal", f"tables {case['preset']}: after {refused} refused statement(s) the file "
+                         f"decodes to different data than the {len(accepted)} accepted statements", case)
     return None
 
 
